@@ -349,7 +349,7 @@ impl MT935 {
                 }
 
                 // T14: Sign must not be used if rate is zero
-                if rate.abs() < 0.00001 && is_negative.is_some() {
+                if rate == 0.0 && is_negative.is_some() {
                     errors.push(SwiftValidationError::content_error(
                         "T14",
                         "37H",
